@@ -8,7 +8,7 @@ the breaking mutants the static check does not flag (leads for new necessary con
 (leads for false alarms).  Nothing is written under /verif; scratch copies live under /tmp and are removed.
 
   tools/mutant_leads.py linalg        (pysph/sph/wc/linalg.py, check C13)
-  tools/mutant_leads.py riemann       (pysph/sph/gas_dynamics/riemann_solver.py, check C15; the oracle compares with the unmutated module)
+  tools/mutant_leads.py riemann       (pysph/sph/gas_dynamics/riemann_solver.py, check C15; the oracle tests the clauses of the property itself on sample states)
   tools/mutant_leads.py kernels       (pysph/base/kernels.py, check C08; the oracle compares with the unmutated module)
 """
 import ast, copy, importlib.util, os, random, shutil, subprocess, sys, tempfile
@@ -243,8 +243,72 @@ def oracle_riemann(path):
         signal.alarm(0)
 
 
+def oracle_riemann_property(path):
+    """True when the (mutated) solvers still have what property C15 states, on a sample of states: reflection symmetry and the common state for all eleven methods;
+    for the iterative solvers (van Leer, exact) invariance under a velocity shift and scaling with a common factor on pressures and densities, a finite positive star
+    pressure on success; failure of the exact solver for vacuum-generating data.  (Equivalence with the unmutated module is NOT required.)"""
+    import signal, io, contextlib, math
+
+    def alarm(*a):
+        raise TimeoutError()
+    signal.signal(signal.SIGALRM, alarm)
+    signal.alarm(40)
+    try:
+        m = load(path, 'mutrs')
+        rnd = random.Random(5)
+        states = []
+        for k in range(60):
+            states.append((10 ** rnd.uniform(-1, 1), 10 ** rnd.uniform(-1, 1), 10 ** rnd.uniform(-1, 1), 10 ** rnd.uniform(-1, 1), rnd.uniform(-1, 1), rnd.uniform(-1, 1)))
+        states += [(1.0, 0.125, 1.0, 0.1, 0.0, 0.0), (1.0, 1.0, 0.4, 0.4, -0.5, 0.5), (1.0, 1.0, 100.0, 0.01, 0.0, 0.0), (2.0, 0.5, 3.0, 3.0, 1.0, -1.0)]
+
+        def solve(method, st, gamma=1.4, niter=40, tol=1e-10):
+            r = [0.0, 0.0]
+            c = m.riemann_solve(method, st[0], st[1], st[2], st[3], st[4], st[5], gamma, niter, tol, r)
+            return bool(c), r[0], r[1]
+
+        def close(a, b, rel=1e-7):
+            return abs(a - b) <= rel * max(1.0, abs(a), abs(b))
+        with contextlib.redirect_stdout(io.StringIO()):
+            for method in range(11):
+                for st in states:
+                    f1, p1, u1 = solve(method, st)
+                    mir = (st[1], st[0], st[3], st[2], -st[5], -st[4])
+                    f2, p2, u2 = solve(method, mir)
+                    if f1 != f2:
+                        return False
+                    if not f1 and not (close(p1, p2) and close(u1, -u2)):
+                        return False
+                    if method in (1, 2) and not f1:
+                        if not (math.isfinite(p1) and p1 > 0):
+                            return False
+                        c0 = 0.75
+                        f3, p3, u3 = solve(method, (st[0], st[1], st[2], st[3], st[4] + c0, st[5] + c0))
+                        if f3 or not (close(p3, p1) and close(u3, u1 + c0)):
+                            return False
+                        k0 = 4.0
+                        f4, p4, u4 = solve(method, (st[0] * k0, st[1] * k0, st[2] * k0, st[3] * k0, st[4], st[5]))
+                        if f4 or not (close(p4, p1 * k0) and close(u4, u1)):
+                            return False
+                for rho, p_, u_ in ((1.0, 1.0, 0.3), (0.2, 5.0, -1.0)):
+                    f5, p5, u5 = solve(method, (rho, rho, p_, p_, u_, u_))
+                    if f5 or not (close(p5, p_) and close(u5, u_)):
+                        return False
+            # vacuum-generating data: the exact solver reports failure
+            f6, p6, u6 = solve(2, (1.0, 1.0, 1.0, 1.0, -10.0, 10.0))
+            if not f6:
+                return False
+        return True
+    except TimeoutError:
+        return False
+    except Exception:
+        return False
+    finally:
+        signal.alarm(0)
+
+
 TARGETS = {
-    'riemann': ('pysph/sph/gas_dynamics/riemann_solver.py', None, 'C15', oracle_riemann),
+    'riemann': ('pysph/sph/gas_dynamics/riemann_solver.py', None, 'C15', oracle_riemann_property),
+    'riemann-equiv': ('pysph/sph/gas_dynamics/riemann_solver.py', None, 'C15', oracle_riemann),
     'kernels': ('pysph/base/kernels.py', None, 'C08', oracle_kernels),
     'linalg': ('pysph/sph/wc/linalg.py', ('identity', 'dot', 'mat_mult', 'mat_vec_mult', 'augmented_matrix', 'gj_solve'), 'C13', oracle_linalg),
 }
